@@ -149,6 +149,24 @@ func genTransfer(seed uint64, tier string) KScenario {
 		}
 		sc.Streams = append(sc.Streams, st)
 	}
+	if r.P(0.15) {
+		// a short blackout of both directions that begins one to four round trips after a bulk stream starts on a connection
+		// that has been established for a while: a whole flight and its acknowledgements vanish before the receiver has
+		// anything of its own in flight (no frames of the handshake's end, not yet a PING added to its ACK-only packets), so
+		// only the sender's own timer can restart the transfer
+		big := 0
+		for i := range sc.Streams {
+			if sc.Streams[i].Size > sc.Streams[big].Size {
+				big = i
+			}
+		}
+		if sc.Streams[big].AtMS < 50 {
+			sc.Streams[big].AtMS = int64(r.Pick(50, 150, 400))
+		}
+		rttUS := 2 * sc.Net.LatencyUS
+		from := sc.Streams[big].AtMS + rttUS*int64(r.Range(10, 40))/10000
+		sc.Net.Outages = append(sc.Net.Outages, WOutage{Dir: 2, FromMS: from, ToMS: from + max(50, rttUS*3/1000) + int64(r.Pick(0, 100, 400))})
+	}
 	if sc.Cfg.Datagrams[0] || sc.Cfg.Datagrams[1] {
 		for i, k := 0, r.N(12); i < k; i++ {
 			sc.Dgrams = append(sc.Dgrams, TDgram{From: r.N(2), AtMS: int64(r.N(800)), Size: r.Pick(1, 20, 300, 1100, 1300)})
@@ -836,6 +854,10 @@ func judgeFailure(w *World, cfg *WConfig, netc *WNet, nExplicit int, res *KResul
 			}
 			if gap := time.Duration(w.starvedFor(side, now)); gap < idle-20*time.Millisecond {
 				res.Fail("idle timeout although undamaged datagrams kept arriving", "side %d: last good delivery %v before the failure, idle period %v", side, gap, idle)
+			} else if since, what := w.stoppedProbing(side, now); !handshake && since > idle/2+time.Second+6*time.Duration(netc.LatencyUS+netc.JitterUS)*time.Microsecond {
+				// Loss recovery never gives up before the idle timeout: with probe timeouts doubling from the last ack-eliciting
+				// transmission, the silence before the idle timer expires is shorter than half the idle period plus half a PTO.
+				res.Fail("endpoint stopped retransmitting: its last ack-eliciting packets were lost and it stayed silent until the idle timeout", "side %d: nothing sent during the last %v of an idle period of %v, nothing received since; last datagram: %s", side, since, idle, what)
 			} else if !w.pathDeadEvidence(now, int64(evidenceWindow)) {
 				// nobody was prevented from talking: the endpoints fell silent with work left to do
 				res.Fail("connection idled out with transfers incomplete although the network delivered everything it was given", "side %d: no datagram was lost or damaged during the last idle period (%v) nor just before it", side, idle)
@@ -1045,6 +1067,52 @@ func (w *World) pathDeadEvidence(f, p int64) bool {
 		}
 	}
 	return false
+}
+
+// stoppedProbing: how long endpoint `side` (0 client, 1 server) has been silent at `now` after a last datagram that carried
+// ack-eliciting frames (not a mere PMTUD probe), never reached the peer, and was not followed by anything the endpoint
+// received. 0 when that is not the situation.
+func (w *World) stoppedProbing(side int, now int64) (time.Duration, string) {
+	w.mu.Lock()
+	defer w.mu.Unlock()
+	var last *DgramRec
+	for _, r := range w.Log[side] {
+		if r.SentNS <= now {
+			last = r
+		}
+	}
+	if last == nil || len(last.Delivered) > 0 {
+		return 0, ""
+	}
+	elic, mtuProbe := false, last.Size > 1300
+	for _, p := range last.Pkts {
+		if !p.Opened || p.Type != Tap1RTT {
+			return 0, ""
+		}
+		for i := range p.Frames {
+			if p.Frames[i].AckEliciting() {
+				elic = true
+			}
+			if n := p.Frames[i].Name; n != "PING" && n != "PADDING" {
+				mtuProbe = false
+			}
+		}
+	}
+	if !elic || mtuProbe {
+		return 0, ""
+	}
+	for _, r := range w.Log[1-side] {
+		for _, at := range r.Delivered {
+			if at >= last.SentNS && at <= now && !r.Damaged {
+				return 0, ""
+			}
+		}
+	}
+	what := ""
+	for _, p := range last.Pkts {
+		what += p.String() + " "
+	}
+	return time.Duration(now - last.SentNS), what
 }
 
 func (w *World) lastFaultNS() int64 {
